@@ -103,8 +103,9 @@ package core
 // processed in one loop iteration (transition invariants: the state at the end
 // of the iteration against prev(), the state at its start). dname is the name
 // the listing reports for that element, dkey the content key a valid name is
-// recorded under, esckey the key a name that is not valid UTF-8 is recorded
-// under.
+// recorded under. A name that is not valid UTF-8 is only collected in the
+// first loop; the second loop records each collected name under a derivative
+// key (esckey, extended by the third loop until it is no key of the map yet).
 //@ spec dname(dc, i) string = dc[i].Name
 //@ spec dkey(s, dc, i) string = s.recomposeUnicode ? nfc(dc[i].Name) : dc[i].Name
 //@ spec esckey(dc, i) string = utf8fix(dc[i].Name, "\ufffd") + " (non-UTF-8)"
@@ -119,13 +120,34 @@ package core
 //@   loop 1 invariant 0 <= rangeindex + 1 && rangeindex < len(directoryContents)
 //@   loop 1 invariant[temp] prev(rangeindex) + 1 == rangeindex && (istempname(dname(directoryContents, rangeindex)) ==> (forall k string :: has(contents, k) <==> prev(has(contents, k))) && len(contents) == prev(len(contents)))
 //@   loop 1 invariant[temp] prev(rangeindex) + 1 == rangeindex && (istempname(dname(directoryContents, rangeindex)) ==> s.files == prev(s.files) && s.totalFileSize == prev(s.totalFileSize) && s.symbolicLinks == prev(s.symbolicLinks) && s.directories == prev(s.directories))
-//@   loop 1 invariant[utf8] prev(rangeindex) + 1 == rangeindex && (!istempname(dname(directoryContents, rangeindex)) && !utf8valid(dname(directoryContents, rangeindex)) ==> has(contents, esckey(directoryContents, rangeindex)) && contents[esckey(directoryContents, rangeindex)] != nil && contents[esckey(directoryContents, rangeindex)].Kind == (ignoreMask ? EntryKind_Untracked : EntryKind_Problematic) && (!ignoreMask ==> len(contents[esckey(directoryContents, rangeindex)].Problem) >= 1))
-//@   loop 1 invariant[utf8] prev(rangeindex) + 1 == rangeindex && (!istempname(dname(directoryContents, rangeindex)) && !utf8valid(dname(directoryContents, rangeindex)) ==> s.files == prev(s.files) && s.totalFileSize == prev(s.totalFileSize) && s.symbolicLinks == prev(s.symbolicLinks) && s.directories == prev(s.directories))
 //@   loop 1 invariant[unsupported] prev(rangeindex) + 1 == rangeindex && (!istempname(dname(directoryContents, rangeindex)) && utf8valid(dname(directoryContents, rangeindex)) && !supportedtype(directoryContents[rangeindex].Mode) ==> has(contents, dkey(s, directoryContents, rangeindex)) && contents[dkey(s, directoryContents, rangeindex)] != nil && contents[dkey(s, directoryContents, rangeindex)].Kind == EntryKind_Untracked)
 //@   loop 1 invariant[unsupported] prev(rangeindex) + 1 == rangeindex && (!istempname(dname(directoryContents, rangeindex)) && utf8valid(dname(directoryContents, rangeindex)) && !supportedtype(directoryContents[rangeindex].Mode) ==> s.files == prev(s.files) && s.totalFileSize == prev(s.totalFileSize) && s.symbolicLinks == prev(s.symbolicLinks) && s.directories == prev(s.directories))
 //@   ensures[kind] result1 == nil ==> result0 != nil && ((result0.Kind == (ignoreMask ? EntryKind_PhantomDirectory : EntryKind_Directory) && result0.Contents != nil) || problematic(result0))
 //@   ensures[kind] result1 != nil ==> result0 == nil
 //@   ensures[count] result1 == nil && result0.Kind == EntryKind_Problematic ==> s.files == old(s.files) && s.totalFileSize == old(s.totalFileSize) && s.symbolicLinks == old(s.symbolicLinks) && s.directories == old(s.directories)
+
+// Names that are not valid UTF-8, and "an iteration only adds entries". The
+// listing of a directory holds no name twice (operating system fact, assumed
+// at the ReadContents call); names not yet processed are therefore no keys
+// yet, and - where names are recorded unchanged, i.e. without Unicode
+// recomposition - recording one replaces nothing. The second loop records one
+// new entry per collected name under a key that was unused, problematic with a
+// text (untracked under the ignore mask), and replaces nothing either.
+// listpos(l, n): the position of name n in listing l (exists because no name
+// occurs twice).
+//@ ufunc listpos(l int, n string) int
+//@ func (*scanner).directory
+//@   at call (*Directory).ReadContents assume result1 == nil ==> forall i in 0..len(result0) :: listpos(base(result0), result0[i].Name) == i
+//@   loop 1 invariant[nooverwrite] !s.recomposeUnicode ==> forall j in rangeindex+1..len(directoryContents) :: !has(contents, directoryContents[j].Name)
+//@   loop 1 invariant[nooverwrite] prev(rangeindex) + 1 == rangeindex && (!s.recomposeUnicode ==> forall k string :: prev(has(contents, k)) ==> has(contents, k) && contents[k] == prev(contents[k]))
+//@   loop 1 invariant[utf8] prev(rangeindex) + 1 == rangeindex && (!istempname(dname(directoryContents, rangeindex)) && !utf8valid(dname(directoryContents, rangeindex)) ==> len(nonUTF8ContentNames) == prev(len(nonUTF8ContentNames)) + 1 && nonUTF8ContentNames[len(nonUTF8ContentNames) - 1] == dname(directoryContents, rangeindex) && (forall k string :: has(contents, k) <==> prev(has(contents, k))) && len(contents) == prev(len(contents)))
+//@   loop 1 invariant[utf8] prev(rangeindex) + 1 == rangeindex && (!istempname(dname(directoryContents, rangeindex)) && !utf8valid(dname(directoryContents, rangeindex)) ==> s.files == prev(s.files) && s.totalFileSize == prev(s.totalFileSize) && s.symbolicLinks == prev(s.symbolicLinks) && s.directories == prev(s.directories))
+//@   loop 1 invariant[utf8] prev(rangeindex) + 1 == rangeindex && (istempname(dname(directoryContents, rangeindex)) || utf8valid(dname(directoryContents, rangeindex)) ==> sameslice(nonUTF8ContentNames, prev(nonUTF8ContentNames)))
+//@   at call strings.ToValidUTF8 assert[utf8] arg0 == contentName && arg1 == "\ufffd"
+//@   loop 2 invariant 0 <= rangeindex + 1 && rangeindex < len(nonUTF8ContentNames)
+//@   loop 2 invariant[utf8] prev(rangeindex) + 1 == rangeindex && has(contents, escapedContentName) && !prev(has(contents, escapedContentName)) && contents[escapedContentName] != nil && contents[escapedContentName].Kind == (ignoreMask ? EntryKind_Untracked : EntryKind_Problematic) && (!ignoreMask ==> len(contents[escapedContentName].Problem) >= 1)
+//@   loop 2 invariant[utf8] prev(rangeindex) + 1 == rangeindex && s.files == prev(s.files) && s.totalFileSize == prev(s.totalFileSize) && s.symbolicLinks == prev(s.symbolicLinks) && s.directories == prev(s.directories)
+//@   loop 2 invariant[nooverwrite] prev(rangeindex) + 1 == rangeindex && (forall k string :: prev(has(contents, k)) ==> has(contents, k) && contents[k] == prev(contents[k]))
 
 // Ignored content and symbolic link modes. The ignorer is asked only on an
 // ignore-cache miss, for the content path (parent path, "/", content key) and
